@@ -38,7 +38,7 @@ func isError(err error) bool {
 var NewReaderDict = flate.NewReaderDict
 
 func NewReader(r io.Reader) io.ReadCloser {
-	rr := &decompressor{}
+	rr := &decompressor{needInput: true}
 	rr.r = r
 	if br, ok := r.(*bufio.Reader); ok {
 		// use the caller's buffered reader whatever its size, as Reset does,
@@ -60,6 +60,7 @@ type decompressor struct {
 	err           error
 	peekSize      int
 	eof           bool
+	needInput     bool // the decoder stopped because it ran out of input
 }
 
 func (r *decompressor) Reset(under io.Reader, _ []byte) error {
@@ -76,6 +77,7 @@ func (r *decompressor) Reset(under io.Reader, _ []byte) error {
 
 	r.peekSize = 0
 	r.eof = false
+	r.needInput = true
 	r.err = nil
 	r.writePos = 0
 	r.readPos = 0
@@ -116,12 +118,23 @@ func (f *decompressor) step() (err error) {
 	}
 
 	if state.input == nil {
-		state.input, err = f.rBuf.Peek(f.rBuf.Size())
-		f.peekSize = len(state.input)
+		// The whole bytes still held in the bit buffer have not been discarded
+		// from rBuf. Ask the source only for what the decoder needs to make
+		// progress (one byte more, and only after it ran out of input), then
+		// take whatever is buffered without touching the source again.
+		need := int(f.state.bitsLen / 8)
+		if f.needInput {
+			need++
+		}
+		if f.rBuf.Buffered() < need {
+			_, err = f.rBuf.Peek(need)
+		}
 		if err != nil && err != bufio.ErrBufferFull && err != io.EOF {
 			return err
 		}
 		f.eof = err == io.EOF
+		state.input, _ = f.rBuf.Peek(f.rBuf.Buffered())
+		f.peekSize = len(state.input)
 		state.input = state.input[f.state.bitsLen/8:]
 	}
 	f.readPos = f.writePos
@@ -135,6 +148,7 @@ func (f *decompressor) step() (err error) {
 
 	startInputSize, startBitsLen := len(f.state.input), int(f.state.bitsLen)
 	err = f.decomperss()
+	f.needInput = err == errEndInput
 	f.state.rOffset(startInputSize, startBitsLen)
 
 	if isError(err) || (err == errEndInput && f.eof) {
